@@ -284,6 +284,7 @@ def run_history(history, rec: Rec | None, case_desc, fs=None, collect=None):
     names = list(b.free_beta_names)
     ref = RefModel()
     bad = None
+    shared = np.zeros(2, dtype=float)       # ONE array that the caller keeps and updates in place (flag 6)
     for i, ev in enumerate(history):
         p = POINTS[ev[0]]
         x = np.array(p, dtype=float)
@@ -291,6 +292,11 @@ def run_history(history, rec: Rec | None, case_desc, fs=None, collect=None):
         if flags == 4:
             # the vector of values is a plain list of Python numbers (the declared type allows it)
             x, flags = [float(v) for v in p], 0
+        elif flags == 6:
+            # ... or the caller's own iterate: one array object, overwritten in place before every such call (the library
+            # is handed the same object again with other values in it)
+            shared[:] = p
+            x, flags = shared, 0
         elif flags == 5:
             # ... or a single-precision array: the point evaluated is the double each entry converts to
             x, flags = np.array(p, dtype=np.float32), 0
@@ -303,7 +309,7 @@ def run_history(history, rec: Rec | None, case_desc, fs=None, collect=None):
                 raise
             # an evaluation an optimiser may issue (any point, any of the declared forms of the vector) is answered, at
             # worst with a warning about the derivatives: it does not raise
-            kind = {4: 'list', 5: 'float32-array'}.get(ev[2] if len(ev) > 2 else 0, 'float64-array')
+            kind = {4: 'list', 5: 'float32-array', 6: 'array-reused-in-place'}.get(ev[2] if len(ev) > 2 else 0, 'float64-array')
             bad = (i, (f'evaluation-raises-{type(e).__name__}|vector={kind}', f'{type(e).__name__}: {str(e)[:150]}'))
             if rec is not None:
                 rec.case(('a', tuple(map(tuple, history[: i + 1]))), (ev, 'raised'), outcome=('raised', type(e).__name__))
@@ -325,11 +331,12 @@ def run_history(history, rec: Rec | None, case_desc, fs=None, collect=None):
 def events(with_scaled):
     """(point, scaled, derivative flags): the flags vary which second-order quantities are requested with the
     evaluation (0 none, 1 Hessian, 2 BHHH, 3 both); saving must not depend on them.  Flags 4 and 5: the vector of values
-    is handed over as a plain list / as a single-precision array."""
+    is handed over as a plain list / as a single-precision array; flag 6: as one array object that the caller keeps and overwrites
+    in place between the calls (an optimiser's own iterate)."""
     pts = list(POINTS)
     if not with_scaled:
         return [(p, 0, 0) for p in pts]
-    return [(p, s, f) for p in pts for (s, f) in ((0, 0), (1, 0), (0, 1), (0, 3), (0, 4), (0, 5))
+    return [(p, s, f) for p in pts for (s, f) in ((0, 0), (1, 0), (0, 1), (0, 3), (0, 4), (0, 5), (0, 6))
             if not (f == 5 and p in ('PM', 'PH'))]      # (the two spikes sit on double-precision values)
 
 
